@@ -227,6 +227,16 @@ func planC10(w *World, spec RunSpec) {
 		w.extra = map[string]any{}
 	}
 	w.extra["sweep_requests"] = float64(w.sweepCount)
+	// what kind of base this is (the quick tier prefers bases that contain a teardown: most
+	// of what can go wrong irrecoverably under a single fault sits in deletion and archival)
+	if len(w.sweepTeardown) > 0 {
+		w.extra["sweep_has_teardown"] = float64(1)
+		idx := make([]any, len(w.sweepTeardown))
+		for i, n := range w.sweepTeardown {
+			idx[i] = float64(n)
+		}
+		w.extra["sweep_teardown_idx"] = idx
+	}
 }
 
 // settleWithResync settles, lets more simulated time pass than any success
